@@ -35,6 +35,7 @@ import (
 	"pgregory.net/rapid"
 
 	"verif/harness/internal/ev"
+	"verif/harness/internal/loglevel"
 )
 
 // ---- capture of the exported HAR record -------------------------------------------------
@@ -255,6 +256,9 @@ func TestHARCollectorBodies(t *testing.T) {
 	rapid.Check(t, func(t *rapid.T) {
 		rq, rp := genDocument(t), genDocument(t)
 		excl := genCollectorExclusions(t, rq.root, rp.root)
+		level := loglevel.Gen().Draw(t, "log level")
+		r.Class("log level " + level)
+		defer loglevel.Set(level)()
 		r.Case()
 		rsReq, rsResp := refFromJSONPaths(excl, reqPrefix), refFromJSONPaths(excl, respPrefix)
 		passReq, passResp := passedByCollector(excl, reqPrefix), passedByCollector(excl, respPrefix)
@@ -306,6 +310,9 @@ func TestHARGeneratorPluginBodies(t *testing.T) {
 			// the same path list reused for the other body must be judged on its own
 			exReq = append(exReq, genCursorExclusions(t, rp.root, "cross-excl")...)
 		}
+		level := loglevel.Gen().Draw(t, "log level")
+		r.Class("log level " + level)
+		defer loglevel.Set(level)()
 		r.Case()
 		rsReq, rsResp := refFromCursors(exReq), refFromCursors(exResp)
 		classify(r, rq.root, rsReq, exReq)
